@@ -18,7 +18,7 @@ CONFIG = {
     "level_note": ("The arithmetic of the definition itself is a pure function and is only covered on the values these "
                    "histories produce; what the simulation adds is enumeration order, chunking, ignore and nesting."),
     "technique": "deterministic simulation: seeded trees x enumeration-order/short-read schedules against an independent directory-hash definition + metamorphic edits",
-    "quick": {"runs": 240, "budget_s": 60},
+    "quick": {"runs": 720, "budget_s": 90},
     "thorough": {"runs": 5000, "budget_s": 540},
     "rule": ("one run = random tree + create, verify -dh -co, one metamorphic edit, create, verify -dh -co; one evaluation = "
              "one directory value set (content+structure of one directory in one format) compared with the reference. "
